@@ -502,4 +502,221 @@ theorem jsonToCelKvs_out_of_range : (kvs : List (String × Json)) → Json.intsI
           simp [jsonToCelKvs, dispatch_json_str, convScalar, hv, jsonToCelKvs_out_of_range rest h, bind, Except.bind]
 end
 
+/-! ### `int(timedelta.total_seconds())`: the binary64 quotient truncates exactly below 2^34 s -/
+section DurFloat
+open Cel.Time
+
+theorem rne_le (n d : Nat) : rne n d ≤ n / d + 1 := by
+  unfold rne; split
+  · omega
+  · split
+    · omega
+    · split <;> omega
+
+theorem rne_ge (n d : Nat) : n / d ≤ rne n d := by
+  unfold rne; split
+  · omega
+  · split
+    · omega
+    · split <;> omega
+
+theorem rne_lo (n d : Nat) (h : 2 * (n % d) < d) : rne n d = n / d := by
+  unfold rne; simp [h]
+
+/-- rounding `n/d` to a grid of spacing `1/P` with `d < 2P` never reaches the next integer -/
+theorem rne_scaled_div (n d P : Nat) (hd : 0 < d) (hP : d < 2 * P) : rne (n * P) d / P = n / d := by
+  have hP0 : 0 < P := by omega
+  -- n = q*d + r
+  have hn := Nat.div_add_mod n d
+  have hr : n % d < d := Nat.mod_lt _ hd
+  generalize hq : n / d = q at *
+  generalize hrr : n % d = r at *
+  have hN : n * P = (q * P) * d + r * P := by
+    rw [← hn, Nat.add_mul]; congr 1; rw [Nat.mul_comm d q, Nat.mul_assoc, Nat.mul_comm d P, Nat.mul_assoc]
+  have hdiv : (n * P) / d = q * P + (r * P) / d := by
+    rw [hN, Nat.add_comm, Nat.add_mul_div_right _ _ hd, Nat.add_comm]
+  have hmod : (n * P) % d = (r * P) % d := by
+    rw [hN, Nat.add_comm, Nat.add_mul_mod_self_right]
+  have hx := Nat.div_add_mod (r * P) d
+  have hv : (r * P) % d < d := Nat.mod_lt _ hd
+  generalize hu : (r * P) / d = u at *
+  generalize hvv : (r * P) % d = v at *
+  -- x = r*P ≤ d*P - P
+  have hxle : r * P + P ≤ d * P := by
+    have : (r + 1) * P ≤ d * P := Nat.mul_le_mul_right P (by omega)
+    rwa [Nat.add_mul, Nat.one_mul] at this
+  have huP : u < P := by
+    have h1 : d * u < d * P := by omega
+    exact Nat.lt_of_mul_lt_mul_left h1
+  -- bounds on rne
+  have hlo := rne_ge (n * P) d
+  have hhi := rne_le (n * P) d
+  rw [hdiv] at hlo hhi
+  have hfin : rne (n * P) d < q * P + P := by
+    by_cases hc : 2 * v < d
+    · have := rne_lo (n * P) d (by rw [hmod]; exact hc)
+      rw [this, hdiv]; omega
+    · -- then u + 1 < P
+      have : u + 1 < P := by
+        by_cases hup : u + 1 = P
+        · exfalso
+          have h2 : d * u + d = d * P := by rw [← hup, Nat.mul_add, Nat.mul_one]
+          omega
+        · omega
+      omega
+  have hge : q * P ≤ rne (n * P) d := by omega
+  have : rne (n * P) d / P = q := by
+    apply Nat.div_eq_of_lt_le
+    · rw [Nat.mul_comm] at hge; rwa [Nat.mul_comm]
+    · rw [Nat.add_mul, Nat.one_mul]; exact hfin
+  exact this
+theorem bitlen_le' (a k : Nat) (h : a < 2 ^ k) : bitlen a ≤ k := by
+  unfold bitlen
+  split
+  · omega
+  · rename_i hne
+    have := (Nat.log2_lt hne).mpr h
+    omega
+
+theorem bitlen_million : bitlen 1000000 = 20 := by decide
+
+/-- below 2^34 seconds the shift that makes the quotient a 53-bit integer is at least 19: spacing ≤ 2^-19 s < 2 µs -/
+theorem shiftFor_small (n : Nat) (h : n < 2 ^ 34 * 1000000) : 19 ≤ shiftFor n 1000000 := by
+  have hb : bitlen n ≤ 54 := bitlen_le' n 54 (by omega)
+  unfold shiftFor
+  simp only [bitlen_million]
+  by_cases h19 : (53 + ((20 : Nat) : Int) - (bitlen n : Int)) = 19
+  · rw [h19]
+    have : n * 2 ^ (19 : Int).toNat / 1000000 < 2 ^ 53 := by
+      apply (Nat.div_lt_iff_lt_mul (by decide)).mpr
+      have : (19 : Int).toNat = 19 := rfl
+      rw [this]; omega
+    simp only [show (0 : Int) ≤ 19 by decide, if_true]
+    rw [if_neg (by omega)]
+    exact Int.le_refl 19
+  · split <;> omega
+
+theorem rndNat_trunc_small (n : Nat) (h : n < 2 ^ 34 * 1000000) :
+    (rndNat n 1000000).trunc = ((n / 1000000 : Nat) : Int) := by
+  unfold rndNat
+  by_cases h0 : n = 0
+  · subst h0; simp [Dy.trunc]
+  · rw [if_neg h0]
+    have hs := shiftFor_small n h
+    have hs0 : 0 ≤ shiftFor n 1000000 := by omega
+    simp only [hs0, if_true]
+    unfold rndUp Dy.trunc
+    simp only
+    generalize hS : (shiftFor n 1000000).toNat = S
+    have hS19 : 19 ≤ S := by omega
+    have hp : 1000000 < 2 * 2 ^ S := by
+      have : 2 ^ 19 ≤ 2 ^ S := Nat.pow_le_pow_right (by decide) hS19
+      omega
+    rw [Int.tdiv_eq_ediv_of_nonneg (Int.natCast_nonneg _)]
+    rw [← Int.natCast_ediv, rne_scaled_div n 1000000 (2 ^ S) (by decide) hp]
+
+/-- `int(timedelta.total_seconds())` truncates toward zero — exactly — for every duration shorter than 2^34 s (544 years):
+the binary64 quotient never reaches the next whole second there. -/
+theorem totalSeconds_trunc_small (us : Int) (h : us.natAbs < 2 ^ 34 * 1000000) :
+    (totalSeconds us).trunc = Int.tdiv us 1000000 := by
+  unfold totalSeconds rnd
+  split
+  · rename_i hneg
+    unfold Dy.neg Dy.trunc
+    simp only
+    have := rndNat_trunc_small us.natAbs h
+    unfold Dy.trunc at this
+    rw [Int.neg_tdiv, this]
+    have e : us = -((us.natAbs : Nat) : Int) := by omega
+    conv => rhs; rw [e, Int.neg_tdiv]
+    rw [Int.tdiv_eq_ediv_of_nonneg (Int.natCast_nonneg _)]; omega
+  · rename_i hnn
+    rw [rndNat_trunc_small us.natAbs h]
+    have e : us = ((us.natAbs : Nat) : Int) := by omega
+    conv => rhs; rw [e]
+    rw [Int.tdiv_eq_ediv_of_nonneg (Int.natCast_nonneg _)]; omega
+/-! binary64 rounding is exact on integers below 2^53 (same argument as C10's `Cel.Time.rnd_exact`; repeated here so that the two
+properties build independently) -/
+theorem rne_mul_j (a d : Nat) (hd : 0 < d) : rne (a * d) d = a := by
+  unfold rne
+  rw [Nat.mul_mod_left, Nat.mul_div_cancel a hd]
+  simp [hd]
+
+theorem lt_pow_bitlen_j (a : Nat) : a < 2 ^ bitlen a := by
+  unfold bitlen
+  split
+  · rename_i h; subst h; simp
+  · exact Nat.lt_log2_self
+
+theorem bitlen_mul_le_j (a d : Nat) : bitlen (a * d) ≤ bitlen a + bitlen d := by
+  apply bitlen_le'
+  rw [Nat.pow_add]
+  exact Nat.mul_lt_mul'' (lt_pow_bitlen_j a) (lt_pow_bitlen_j d)
+
+theorem shiftFor_nonneg_j (a d : Nat) (hd : 0 < d) (h : a < 2 ^ 53) : 0 ≤ shiftFor (a * d) d := by
+  have h1 := bitlen_mul_le_j a d
+  have h2 := bitlen_le' a 53 h
+  unfold shiftFor
+  simp only
+  by_cases h0 : (53 + (bitlen d : Int) - (bitlen (a * d) : Int)) = 0
+  · rw [h0]
+    have : a * d * 2 ^ (0 : Int).toNat / d = a := by
+      simp; rw [Nat.mul_comm, Nat.mul_div_cancel_left a hd]
+    simp only [Int.le_refl, if_true, this]
+    rw [if_neg (by omega)]
+    exact Int.le_refl 0
+  · split <;> omega
+
+theorem rndNat_exact_j (a d : Nat) (hd : 0 < d) (h : a < 2 ^ 53) : (rndNat (a * d) d).trunc = (a : Int) := by
+  unfold rndNat
+  by_cases h0 : a * d = 0
+  · have : a = 0 := by
+      rcases Nat.mul_eq_zero.mp h0 with h | h
+      · exact h
+      · omega
+    subst this; simp [Dy.trunc]
+  · rw [if_neg h0]
+    have hs := shiftFor_nonneg_j a d hd h
+    simp only [hs, if_true]
+    unfold rndUp Dy.trunc
+    simp only
+    have e : a * d * 2 ^ (shiftFor (a * d) d).toNat = (a * 2 ^ (shiftFor (a * d) d).toNat) * d := by
+      rw [Nat.mul_assoc, Nat.mul_comm d, ← Nat.mul_assoc]
+    rw [e, rne_mul_j _ _ hd]
+    have hp : 0 < 2 ^ (shiftFor (a * d) d).toNat := Nat.pow_pos (by decide)
+    rw [Int.tdiv_eq_ediv_of_nonneg (by exact Int.natCast_nonneg _)]
+    rw [Int.natCast_mul, Int.mul_ediv_cancel _ (by omega)]
+
+theorem rnd_exact_j (z : Int) (d : Nat) (hd : 0 < d) (h : z.natAbs < 2 ^ 53) : (rnd (z * d) d).trunc = z := by
+  unfold rnd
+  have e : (z * (d : Int)).natAbs = z.natAbs * d := by rw [Int.natAbs_mul]; simp
+  rw [e]
+  split
+  · rename_i hneg
+    have hz : z < 0 := by
+      by_cases h' : z < 0
+      · exact h'
+      · exfalso
+        have : 0 ≤ z * (d : Int) := Int.mul_nonneg (by omega) (Int.natCast_nonneg d)
+        omega
+    unfold Dy.neg Dy.trunc
+    simp only
+    have := rndNat_exact_j z.natAbs d hd h
+    unfold Dy.trunc at this
+    rw [Int.neg_tdiv, this]; omega
+  · rename_i hnn
+    have hz : 0 ≤ z := by
+      by_cases h' : z < 0
+      · exfalso
+        have : z * (d : Int) < 0 := Int.mul_neg_of_neg_of_pos h' (by omega)
+        omega
+      · omega
+    rw [rndNat_exact_j z.natAbs d hd h]; omega
+
+theorem rnd_exact_million (s : Int) (h : s.natAbs < 2 ^ 53) : (rnd (s * 1000000) 1000000).trunc = s := by
+  have := rnd_exact_j s 1000000 (by decide) h
+  simpa using this
+
+end DurFloat
+
 end Cel.JsonM
